@@ -26,7 +26,8 @@ META = {
     "assumptions": [
         "K5 pyarrow kernel semantics as encoded by vf.pashim (validated against real pyarrow on samples at start-up); safe casts raise when inexact",
         "K8 wire format the connector decodes: timestamp = struct(epoch seconds int64, fraction nanoseconds int32 [, timezone offset+1440]); TIME = int64 nanoseconds",
-        "NULL validity bitmaps, decimals and every C++ decoding step of the connector are outside the claim",
+        "NULL validity is modelled per element (K5 shim: element-wise kernels propagate NULL, a StructArray without mask is valid everywhere); "
+        "decimals and every C++ decoding step of the connector are outside the claim",
         "known finding carved out: the server's 'total' field is always 1",
     ],
 }
@@ -52,8 +53,9 @@ def _with_shim(fn, *args):
 
 def _timestamp_struct(tz) -> SmtResult:
     t = z3.Int("t_us")
+    v = z3.Bool("valid")  # the element is not NULL
     try:
-        struct, side = _with_shim(farrow.timestamp_to_sf_struct, pashim.Arr(t, pashim.timestamp("us", tz=tz)))
+        struct, side = _with_shim(farrow.timestamp_to_sf_struct, pashim.Arr(t, pashim.timestamp("us", tz=tz), valid=v))
     except pashim.Unsupported as e:
         return SmtResult("inconclusive", detail=f"shim does not model: {e}")
     names = [f.name for f in struct.fields]
@@ -64,25 +66,23 @@ def _timestamp_struct(tz) -> SmtResult:
     defs = [c for d, c in side if d == "__def__"]
     side = [(d, c) for d, c in side if d != "__def__"]
     domain = z3.And(t >= US_MIN, t <= US_MAX, *defs)
-    good = z3.And(
-        *[c for _d, c in side],
-        epoch.term * 10**9 + fraction.term == t * 1000,
-        fraction.term >= 0,
-        fraction.term < 10**9,
-    )
+    value_ok = z3.And(epoch.valid, fraction.valid, epoch.term * 10**9 + fraction.term == t * 1000, fraction.term >= 0, fraction.term < 10**9)
     if tz:
-        good = z3.And(good, struct.child("timezone").term == 1440)
+        value_ok = z3.And(value_ok, struct.child("timezone").valid, struct.child("timezone").term == 1440)
+    # a NULL timestamp must be a NULL struct (the connector reads the struct's validity, not its children's), a non-NULL one a valid struct
+    good = z3.And(*[c for _d, c in side], struct.valid == v, z3.Implies(v, value_ok))
     types_ok = epoch.type == pashim.int64() and fraction.type == pashim.int32() and (not tz or struct.child("timezone").type == pashim.int32())
     if not types_ok:
         return SmtResult("counterexample", detail="field types differ from int64/int32[/int32]", model={"tz": tz, "t_us": 0})
     verdict, model, dt, notes = check([domain, z3.Not(good)], timeout_s=tier(120, 600))
-    sample = {"query": "exists t_us in [0001-01-01, 9999-12-31]: a safe cast fails or epoch*1e9+fraction != t*1000 or fraction not in [0,1e9) or timezone != 1440", "side_conditions": [d for d, _ in side], "tz": tz, "notes": notes}
+    sample = {"query": "exists (t_us in [0001-01-01, 9999-12-31], is-null flag): a safe cast fails or struct validity != value validity or (not null and (epoch*1e9+fraction != t*1000 or fraction not in [0,1e9) or timezone != 1440))", "side_conditions": [d for d, _ in side], "tz": tz, "notes": notes}
     if verdict == "unsat":
         return SmtResult("holds", queries=1, solver_s=dt, detail="unsat; " + "; ".join(notes), samples=[sample], programs=1)
     if verdict == "sat":
         tv = model.eval(t, model_completion=True).as_long()
+        isnull = z3.is_false(model.eval(v, model_completion=True))
         failing = [d for d, c in side if z3.is_false(model.eval(c, model_completion=True))]
-        return SmtResult("counterexample", queries=1, solver_s=dt, detail=f"t_us={tv} failing side conditions={failing}", model={"tz": tz, "t_us": tv}, samples=[sample], programs=1)
+        return SmtResult("counterexample", queries=1, solver_s=dt, detail=f"t_us={tv} null={isnull} failing side conditions={failing}", model={"tz": tz, "t_us": tv, "null": isnull}, samples=[sample], programs=1)
     return SmtResult("inconclusive", queries=1, solver_s=dt, detail=f"solver: {verdict} {notes}", samples=[sample])
 
 
@@ -90,11 +90,20 @@ def _real_timestamp(a: dict):
     import pyarrow as pa
 
     tz = a.get("tz")
+    if a.get("null"):
+        arr = pa.array([None, a["t_us"]], type=pa.timestamp("us", tz=tz))
+        try:
+            st = farrow.timestamp_to_sf_struct(arr)
+        except Exception as e:  # noqa: BLE001
+            return True, f"real pyarrow: timestamp_to_sf_struct([NULL, ..]) raised {type(e).__name__}: {e}"
+        return st[0].is_valid or not st[1].is_valid, f"real pyarrow: [NULL, {a['t_us']}] -> validity {[x.is_valid for x in st]} values {st.to_pylist()}"
     arr = pa.array([a["t_us"]], type=pa.timestamp("us", tz=tz))
     try:
         st = farrow.timestamp_to_sf_struct(arr)
     except Exception as e:  # noqa: BLE001
         return True, f"real pyarrow: timestamp_to_sf_struct({a['t_us']} us) raised {type(e).__name__}: {e}"
+    if not st[0].is_valid:
+        return True, f"real pyarrow: non-NULL {a['t_us']} us became a NULL struct"
     row = st[0].as_py()
     ok = row["epoch"] * 10**9 + row["fraction"] == a["t_us"] * 1000 and 0 <= row["fraction"] < 10**9 and (not tz or row.get("timezone") == 1440)
     return (not ok), f"real pyarrow: {a['t_us']} us -> {row}"
@@ -104,7 +113,8 @@ def _real_timestamp(a: dict):
     "C17.timestamp_ntz_struct_exact",
     kind="smt",
     encodes=["fakesnow.arrow.timestamp_to_sf_struct (real body, pyarrow shimmed)"],
-    bounds="one row; timestamp[us] value any integer in 0001-01-01 .. 9999-12-31 23:59:59.999999 (pre-1970 included), no time zone; "
+    bounds="one row; NULL or a timestamp[us] value, any integer in 0001-01-01 .. 9999-12-31 23:59:59.999999 (pre-1970 included), no time zone; "
+    "NULL-ness is a symbolic flag: the struct handed to the connector is NULL exactly when the timestamp is; "
     "Python/pyarrow int64 as mathematical integers with explicit wrap / range side conditions",
     timeout=(300, 900),
     stubs=["K5 vf.pashim"],
@@ -130,6 +140,22 @@ def ts_tz() -> SmtResult:
 def _real_time(a: dict):
     import pyarrow as pa
 
+    if a.get("null_columns"):
+        from fakesnow.types import describe_as_rowtype
+
+        kinds = {
+            "TM": (pa.time64("us"), "TIME", 1), "TS": (pa.timestamp("us"), "TIMESTAMP", 1), "TZ": (pa.timestamp("us", tz="UTC"), "TIMESTAMP WITH TIME ZONE", 1),
+            "I": (pa.int64(), "BIGINT", 1), "D": (pa.int64(), "BIGINT", 1), "S": (pa.string(), "VARCHAR", "x"),
+        }  # fmt: skip
+        names = list(a["null_columns"])
+        tbl = pa.table({n: pa.array([None, kinds[n][2]], type=kinds[n][0]) for n in names})
+        rowtype = describe_as_rowtype([(n, kinds[n][1], "YES", None, None, None) for n in names])
+        try:
+            out = farrow.to_sf(tbl, rowtype)
+        except Exception as e:  # noqa: BLE001
+            return True, f"real pyarrow: to_sf raised {type(e).__name__}: {e}"
+        val = {n: [x.is_valid for x in out.column(i)] for i, n in enumerate(names)}
+        return any(v != [False, True] for v in val.values()), f"real pyarrow: to_sf of [NULL, value] per column -> validity {val}"
     tbl = pa.table({"T": pa.array([a["t_us"]], type=pa.time64("us"))})
     rowtype = [{"name": "T", "type": "time", "precision": 0, "scale": 9, "length": None}]
     try:
@@ -158,13 +184,14 @@ def to_sf_table() -> SmtResult:
     tm = z3.Int("t_us")
     ts = z3.Int("ts_us")
     iv = z3.Int("i")
+    nn = {n: z3.Bool(f"valid_{n}") for n in ("TM", "TS", "TZ", "I", "D", "S")}  # per column: the element is not NULL
     cols = [
-        ("TM", pashim.Arr(tm, pashim.time64("us")), "TIME"),
-        ("TS", pashim.Arr(ts, pashim.timestamp("us")), "TIMESTAMP"),
-        ("TZ", pashim.Arr(ts, pashim.timestamp("us", tz="UTC")), "TIMESTAMP WITH TIME ZONE"),
-        ("I", pashim.Arr(iv, pashim.int64()), "BIGINT"),
-        ("D", pashim.Arr(iv, pashim.int64()), "DECIMAL(10,2)"),
-        ("S", pashim.Arr(iv, pashim.int64()), "VARCHAR"),
+        ("TM", pashim.Arr(tm, pashim.time64("us"), valid=nn["TM"]), "TIME"),
+        ("TS", pashim.Arr(ts, pashim.timestamp("us"), valid=nn["TS"]), "TIMESTAMP"),
+        ("TZ", pashim.Arr(ts, pashim.timestamp("us", tz="UTC"), valid=nn["TZ"]), "TIMESTAMP WITH TIME ZONE"),
+        ("I", pashim.Arr(iv, pashim.int64(), valid=nn["I"]), "BIGINT"),
+        ("D", pashim.Arr(iv, pashim.int64(), valid=nn["D"]), "DECIMAL(10,2)"),
+        ("S", pashim.Arr(iv, pashim.int64(), valid=nn["S"]), "VARCHAR"),
     ]
     rowtype = describe_as_rowtype([(n, ty, "YES", None, None, None) for n, _a, ty in cols])
     table = pashim.Table([a for _n, a, _t in cols], pashim.Schema([pashim.Field(n, a.type) for n, a, _t in cols]))
@@ -196,13 +223,22 @@ def to_sf_table() -> SmtResult:
     defs = [c for d, c in side if d == "__def__"]
     side = [(d, c) for d, c in side if d != "__def__"]
     domain = z3.And(tm >= 0, tm < 86400 * 10**6, ts >= US_MIN, ts <= US_MAX, *defs)
-    good = z3.And(*[c for _d, c in side], by["TM"].term == tm * 1000)
+    good = z3.And(
+        *[c for _d, c in side],
+        z3.Implies(nn["TM"], by["TM"].term == tm * 1000),
+        # NULL in, NULL out - for every column kind (validity is what the connector's decoder reads)
+        *[by[n].valid == nn[n] for n in nn],
+    )
     verdict, model, dt, notes = check([domain, z3.Not(good)], timeout_s=tier(120, 600))
-    sample = {"query": "exists time-of-day t_us: to_sf(TIME) != 1000*t_us or a safe cast fails", "notes": notes}
+    sample = {"query": "exists time-of-day t_us, per-column NULL flags: to_sf(TIME) != 1000*t_us or a safe cast fails or some column's validity changes", "notes": notes}
     if verdict == "unsat":
         return SmtResult("holds", queries=1, solver_s=dt, detail="unsat; " + "; ".join(notes), samples=[sample], programs=1)
     if verdict == "sat":
-        return SmtResult("counterexample", queries=1, solver_s=dt, detail="TIME re-encoding", model={"t_us": model.eval(tm, model_completion=True).as_long()}, samples=[sample], programs=1)
+        bad_null = [n for n in nn if z3.is_false(model.eval(by[n].valid == nn[n], model_completion=True))]
+        return SmtResult(
+            "counterexample", queries=1, solver_s=dt, detail=f"TIME re-encoding / NULL validity of columns {bad_null}",
+            model={"t_us": model.eval(tm, model_completion=True).as_long(), "null_columns": bad_null}, samples=[sample], programs=1,
+        )
     return SmtResult("inconclusive", queries=1, solver_s=dt, detail=str(notes))
 
 
